@@ -15,6 +15,7 @@ import (
 	"sort"
 	"strings"
 	"sync"
+	"time"
 )
 
 // Violation is one refutation of a property, with everything needed to replay it.
@@ -47,6 +48,9 @@ type Result struct {
 	Exhaustive []string         `json:"exhaustive_stages"`
 	Stages     map[string]int64 `json:"stages"`
 	Done       bool             `json:"done"`
+	// Watchdogs lists operations that did not return within their (generous, wall-clock) bound: the run is
+	// inconclusive for them, never a violation.
+	Watchdogs []string `json:"watchdogs,omitempty"`
 }
 
 // Ctx is the per-worker context.
@@ -279,6 +283,30 @@ func (c *Ctx) Obs(name string, d int64) {
 	c.mu.Lock()
 	c.res.Obs[name] += d
 	c.mu.Unlock()
+}
+
+// Bounded runs f and waits for it for at most limit (a generous wall-clock bound around an operation that
+// needs no time at all on correct code). It returns false when f has not returned by then: the goroutine
+// is abandoned, the worker goes on, and the driver reports the run as inconclusive for that operation.
+func (c *Ctx) Bounded(limit time.Duration, what string, f func()) (returned bool, panicked interface{}) {
+	done := make(chan interface{}, 1)
+	go func() {
+		defer func() { done <- recover() }()
+		f()
+	}()
+	t := time.NewTimer(limit)
+	defer t.Stop()
+	select {
+	case p := <-done:
+		return true, p
+	case <-t.C:
+		c.mu.Lock()
+		if len(c.res.Watchdogs) < 20 {
+			c.res.Watchdogs = append(c.res.Watchdogs, what)
+		}
+		c.mu.Unlock()
+		return false, nil
+	}
 }
 
 // ObsMax keeps the maximum.
